@@ -922,8 +922,13 @@ fn explore_exhaustive(case: &LayoutCase, flags: &Flags, n_max: usize, max_states
   seen.insert((state_hash(&s0.0), mon_key(&s0.1)));
   queue.push_back(s0);
   out.count("exhaustive_layouts");
+  // operations: every trigger key of the layout (any key of any `from`), one foreign key of each kind, release-all.
+  // Keys that are only outputs are left to the random walks: pressing them physically multiplies the state space.
+  let mut keys: Vec<KeyCode> = vec![];
+  for m in &case.layout.mappings { for k in &m.from { set_insert(&mut keys, *k); } }
+  for k in &case.foreign { if keys.len() < 10 { set_insert(&mut keys, *k); } }
   let mut ops: Vec<Op> = vec![];
-  for k in &case.alphabet { ops.push(Op::P(*k)); ops.push(Op::R(*k)); }
+  for k in &keys { ops.push(Op::P(*k)); ops.push(Op::R(*k)); }
   ops.push(Op::RA);
   let mut bad = 0;
   while let Some(st) = queue.pop_front() {
@@ -952,12 +957,12 @@ fn explore_exhaustive(case: &LayoutCase, flags: &Flags, n_max: usize, max_states
 fn gen_params_for(prop: &str, rng: &mut Rng, thorough: bool) -> GenParams {
   let max_mappings = if thorough { 7 } else { 6 };
   match prop {
-    "C03" | "C04" => GenParams { absorbing: false, norepeat: rng.chance(1, 2), special_bias: false, max_mappings },
-    "C07" => GenParams { absorbing: rng.chance(1, 3), norepeat: true, special_bias: false, max_mappings },
-    "C08" => GenParams { absorbing: true, norepeat: rng.chance(1, 3), special_bias: false, max_mappings },
-    "C09" => GenParams { absorbing: rng.chance(1, 3), norepeat: true, special_bias: true, max_mappings },
-    "C05" => GenParams { absorbing: rng.chance(1, 4), norepeat: rng.chance(1, 2), special_bias: false, max_mappings },
-    _ => GenParams { absorbing: rng.chance(1, 2), norepeat: rng.chance(1, 2), special_bias: false, max_mappings }
+    "C03" | "C04" => GenParams { absorbing: false, norepeat: rng.chance(1, 2), special_bias: false, max_mappings, shared_repeat: rng.chance(1, 8) },
+    "C07" => GenParams { absorbing: rng.chance(1, 3), norepeat: true, special_bias: false, max_mappings, shared_repeat: rng.chance(1, 8) },
+    "C08" => GenParams { absorbing: true, norepeat: rng.chance(1, 3), special_bias: false, max_mappings, shared_repeat: rng.chance(1, 8) },
+    "C09" => GenParams { absorbing: rng.chance(1, 3), norepeat: true, special_bias: true, max_mappings, shared_repeat: rng.chance(1, 8) },
+    "C05" => GenParams { absorbing: rng.chance(1, 4), norepeat: rng.chance(1, 2), special_bias: false, max_mappings, shared_repeat: rng.chance(1, 8) },
+    _ => GenParams { absorbing: rng.chance(1, 2), norepeat: rng.chance(1, 2), special_bias: false, max_mappings, shared_repeat: rng.chance(1, 8) }
   }
 }
 
@@ -979,12 +984,14 @@ pub fn run(opts: &Opts) -> i32 {
   let known: Vec<String> = opts.known();
   let wp = WalkParams { n_max: if thorough { 5 } else { 4 }, max_len: if thorough { 90 } else { 60 } };
   let n_gen = opts.num("layouts", if thorough { 60000 } else { 4000 }) as usize;
-  let walks_gen = opts.num("walks", if thorough { 40 } else { 30 }) as usize;
+  let walks_gen = opts.num("walks", if thorough { 40 } else { 20 }) as usize;
   let walks_corpus = opts.num("corpus_walks", if thorough { 6000 } else { 400 }) as usize;
-  let exh_alphabet = opts.num("exh_alphabet", if thorough { 8 } else { 7 }) as usize;
-  let exh_every = opts.num("exh_every", if thorough { 4 } else { 10 }) as usize;
+  let exh_alphabet = opts.num("exh_alphabet", if thorough { 8 } else { 7 }) as usize;   // trigger keys
+  let exh_every = opts.num("exh_every", if thorough { 2 } else { 3 }) as usize;
   let exh_nmax = opts.num("exh_nmax", if thorough { 4 } else { 3 }) as usize;
-  let exh_states = opts.num("exh_states", if thorough { 150000 } else { 20000 }) as usize;
+  let exh_states = opts.num("exh_states", if thorough { 150000 } else { 12000 }) as usize;
+  // C08's monitor state (arming table) multiplies the state space: explore fewer layouts exhaustively there
+  let (exh_every, exh_states) = if opts.prop == "C08" { (exh_every * 3, exh_states / 2) } else { (exh_every, exh_states) };
 
   // corpus: every shard explores every relevant corpus layout with its own seed
   let corpus = corpus_layouts();
@@ -1011,7 +1018,13 @@ pub fn run(opts: &Opts) -> i32 {
     if !relevant(&opts.prop, &case) { continue; }
     made += 1;
     explore_layout(&case, &flags, walks_gen, &wp, &mut rng, &mut out, &known);
-    if case.alphabet.len() <= exh_alphabet && made % exh_every == 0 {
+    let n_trigger_keys = { let mut v: Vec<KeyCode> = vec![]; for m in &case.layout.mappings { for k in &m.from { set_insert(&mut v, *k); } } v.len() };
+    if case.source == "genE" && n_trigger_keys <= 6 && made % (if opts.prop == "C08" { 4 } else { 2 }) == 0 {
+      // the absorbing-centric layouts are tiny: four keys held, a larger bound
+      explore_exhaustive(&case, &flags, 4, exh_states * 4, &mut out, &known);
+      out.count("exhaustive_layouts_4_keys_held");
+    }
+    else if n_trigger_keys <= exh_alphabet && !case.wide && made % exh_every == 0 {
       explore_exhaustive(&case, &flags, exh_nmax, exh_states, &mut out, &known);
     }
   }
